@@ -153,6 +153,20 @@ def run(chk):
             pass
     r2.require(14, "guarded UB-precondition uses")
 
+    # ------------------------------------------------------------------ R12.4 key lookups through search iterators
+    r4 = chk.rule("R12.4", "a value is handed out through an iterator obtained from find() only under `!= end()`, and through one obtained from lower_bound()/upper_bound() only under "
+                           "`!= end()` and a test that its key is equivalent to the requested key",
+                  "Map at/[]/find either have the result of the std::map operation or raise: a lookup of an absent key never yields a neighbouring entry")
+    fixture_selfcheck()
+    n4 = 0
+    for f in boot:
+        for inst, ok, where, why in lookup_sites(prog, f):
+            n4 += 1
+            chk.touched([f])
+            r4.ob(inst, ok, where, f["q"], why)
+    r4.ob("matcher self-check on fixtures/c12_lookup.cpp: sound find/lower_bound idioms pass, unsound ones are reported (%d lookup sites in the library today)" % n4, True, "", "", "")
+    r4.require(1, "obligation")
+
     r3 = chk.rule("R12.3", "a position computed as begin()+n is used by erase only under 0 <= n < distance(begin,end) and by insert only under 0 <= n <= distance(begin,end)",
                   "erase_at / insert_at accept exactly the valid positions (no off-by-one past the end)")
     position_bounds(prog, chk, r3, boot)
@@ -345,3 +359,106 @@ def throws(n):
         if x.get("k") == "throw":
             has_throw = True
     return has_throw
+
+
+# ------------------------------------------------------------------ R12.4 helpers
+SEARCHES = {"find": "find", "lower_bound": "bound", "upper_bound": "bound", "equal_range": "bound"}
+
+
+def lookup_sites(prog, f):
+    """yield (instance, ok, where, why) for every dereference of a local iterator obtained from a search member"""
+    from ..flow import atomic_facts
+    flow = None
+    for d in walk(f["body"]):
+        if d.get("k") != "decl":
+            continue
+        for v in d["vars"]:
+            init = strip_casts(v.get("init") or {})
+            while init.get("k") == "construct" and init.get("args") and len(init["args"]) == 1:
+                init = strip_casts(init["args"][0])
+            if not (init.get("k") == "call" and init.get("name") in SEARCHES and init.get("obj") is not None):
+                continue
+            kind = SEARCHES[init["name"]]
+            key = strip_casts(init["args"][0]) if init.get("args") else {}
+            flow = flow or FnFlow(f)
+            for n in walk(f["body"]):
+                if not (n.get("k") == "call" and n.get("op") in ("->", "*")):
+                    continue
+                tgt = strip_casts(n.get("obj") if n.get("obj") is not None else (n["args"][0] if n.get("args") else {}))
+                if tgt.get("vid") != v["vid"]:
+                    continue
+                par = flow.parent(n)
+                field = par.get("name") if par is not None and par.get("k") == "member" else None
+                facts = list(atomic_facts(flow, n))
+
+                def is_end_cmp(c):
+                    c = strip_casts(c)
+                    if c.get("k") == "call" and c.get("op") in ("==", "!=") and len(c.get("args", [])) == 2:
+                        a, b = strip_casts(c["args"][0]), strip_casts(c["args"][1])
+                    elif c.get("k") == "binop" and c.get("op") in ("==", "!="):
+                        a, b = strip_casts(c["lhs"]), strip_casts(c["rhs"])
+                    else:
+                        return None
+                    for x, y in ((a, b), (b, a)):
+                        if x.get("vid") == v["vid"] and y.get("k") == "call" and y.get("name") in ("end", "cend"):
+                            return c["op"]
+                    return None
+                not_end = any((is_end_cmp(c) == "==" and not t) or (is_end_cmp(c) == "!=" and t) for c, t in facts)
+
+                def key_equiv(c, t):
+                    c = strip_casts(c)
+                    txt = expr_str(prog, f, c)
+                    mentions_it = any(x.get("vid") == v["vid"] for x in walk(c))
+                    mentions_key = key.get("vid") is not None and any(x.get("vid") == key.get("vid") for x in walk(c))
+                    if not (mentions_it and mentions_key):
+                        return False
+                    if "key_comp" in txt or (c.get("k") in ("call", "binop") and c.get("op") in ("<", ">")):
+                        return not t           # not (key < it->first): together with lower_bound's it->first >= key this is equivalence
+                    if c.get("k") in ("call", "binop") and c.get("op") == "==":
+                        return bool(t)
+                    if c.get("k") in ("call", "binop") and c.get("op") == "!=":
+                        return not t
+                    return False
+                needs_key = kind == "bound" and field != "first"
+                eq = any(key_equiv(c, t) for c, t in facts)
+                ok = not_end and (eq or not needs_key)
+                why = []
+                if not not_end:
+                    why.append("no `!= end()` test on the iterator is established here")
+                if needs_key and not eq:
+                    why.append("the iterator comes from %s(): it may point at the next larger key, and no test establishes that its key is equivalent to the requested one" % init["name"])
+                yield ("%s: `%s` obtained from %s() is dereferenced (%s)" % (strip_targs(f["q"]), v["name"], init["name"], field or "*"), ok, "%s:%d" % (f["file"], n["l"]),
+                       "; ".join(why) + ": a lookup of an absent key returns (and lets the script overwrite) a neighbouring entry")
+
+
+_fixture_done = {}
+
+
+def fixture_selfcheck():
+    """run the R12.4 matcher on /verif/fixtures/c12_lookup.cpp: the rule has no instance in /repo today, so its matcher is exercised on every run"""
+    import hashlib
+    import os
+    from .. import ir
+    src = os.path.join(ir.VERIF, "fixtures", "c12_lookup.cpp")
+    try:
+        h = hashlib.sha1(open(src, "rb").read()).hexdigest()[:10]
+    except OSError:
+        raise AnalysisBroken("C12 R12.4: fixture %s is missing" % src)
+    if h in _fixture_done:
+        return
+    prefix = ir.extract_unit("fixture_c12_" + h, src, [], extra_roots=[os.path.join(ir.VERIF, "fixtures") + "/"])
+    fp = ir.Program()
+    fp.load_unit(prefix, "fixture_c12")
+    fp.index()
+    got = {}
+    for f in fp.fns:
+        if f["tk"] == "pattern" or "verif_fixture::" not in f["q"]:
+            continue
+        name = strip_targs(f["q"]).split("::")[-1]
+        for inst, ok, where, why in lookup_sites(fp, f):
+            got.setdefault(name, []).append(ok)
+    want = {"good_lower": True, "bad_lower": False, "good_find": True, "bad_find": False}
+    for name, w in want.items():
+        if name not in got or all(got[name]) != w:
+            raise AnalysisBroken("C12 R12.4: matcher self-check failed on fixture function %s (verdicts %s, expected %s)" % (name, got.get(name), w))
+    _fixture_done[h] = True
